@@ -86,6 +86,10 @@ pub struct Obs {
     pub excluded: Vec<&'static str>,
     /// extra evaluations performed inside this case (e.g. number of requests checked)
     pub inner_evals: u64,
+    /// hashes of distinct non-trivial inner inputs (enumerations inside one case)
+    pub inner_nontrivial: Vec<u64>,
+    pub inner_labels: Vec<(&'static str, u64)>,
+    pub sample: Option<Value>,
 }
 
 impl Obs {
@@ -99,7 +103,7 @@ impl Obs {
     }
 }
 
-#[derive(Default)]
+#[derive(Default, Serialize, Deserialize)]
 pub struct Stats {
     pub cases: u64,
     pub inner_evals: u64,
@@ -140,6 +144,17 @@ impl Stats {
         }
         for l in obs.excluded {
             *self.excluded.entry(l.to_string()).or_insert(0) += 1;
+        }
+        for (l, n) in obs.inner_labels {
+            *self.labels.entry(format!("{}:{}", sub, l)).or_insert(0) += n;
+        }
+        for h in obs.inner_nontrivial {
+            self.nontrivial.insert(h);
+        }
+        if let Some(sv) = obs.sample {
+            if self.samples.len() < 3 {
+                self.samples.push(json!({"check": sub, "inner_case": sv}));
+            }
         }
         if obs.nontrivial {
             let txt = serde_json::to_string(case).unwrap_or_default();
@@ -245,6 +260,33 @@ pub fn run_shard<C: Case>(
     check: &(dyn Fn(&C, &mut Obs) -> Result<(), String> + Sync),
     stats: &mut Stats,
 ) -> Option<Failure> {
+    run_shard_opt(sub, seed, shard, cases, tape_len, decode, check, stats, false)
+}
+
+/// A check may answer `Err("REPLAY_CASE:<json of a smaller case>\n<message>")` to substitute the
+/// failing case by a more specific one (e.g. the single corrupted input out of an enumeration).
+fn split_replay_case<C: Case>(case: C, msg: String) -> (C, String) {
+    if let Some(rest) = msg.strip_prefix("REPLAY_CASE:") {
+        if let Some((js, m)) = rest.split_once('\n') {
+            if let Ok(c) = serde_json::from_str::<C>(js) {
+                return (c, m.to_string());
+            }
+        }
+    }
+    (case, msg)
+}
+
+pub fn run_shard_opt<C: Case>(
+    sub: &str,
+    seed: u64,
+    shard: u64,
+    cases: u32,
+    tape_len: usize,
+    decode: &(dyn Fn(&mut Tape) -> C + Sync),
+    check: &(dyn Fn(&C, &mut Obs) -> Result<(), String> + Sync),
+    stats: &mut Stats,
+    announce: bool,
+) -> Option<Failure> {
     let config = Config {
         cases,
         failure_persistence: None,
@@ -266,12 +308,20 @@ pub fn run_shard<C: Case>(
         };
         let tape = tree.current();
         let case = decode(&mut Tape::new(&tape));
+        if announce {
+            println!("C {}", serde_json::to_string(&case).unwrap_or_default());
+        }
         let mut obs = Obs::default();
         let r = guard(|| check(&case, &mut obs)).unwrap_or_else(|p| Err(format!("panic: {}", p)));
         match r {
             Ok(()) => stats.record(sub, &case, obs),
             Err(msg) => {
                 stats.record(sub, &case, obs);
+                if msg.starts_with("REPLAY_CASE:") {
+                    let (c2, m2) = split_replay_case(case, msg);
+                    failure = Some(minimise((c2, m2), check));
+                    break;
+                }
                 // shrink the tape with proptest's own value tree, then minimise structurally
                 let mut tree = tree;
                 let mut best: (C, String) = (case, msg);
@@ -325,7 +375,7 @@ pub fn minimise<C: Case>(
             let mut o = Obs::default();
             let r = guard(|| check(&cand, &mut o)).unwrap_or_else(|p| Err(format!("panic: {}", p)));
             if let Err(m) = r {
-                best = (cand, m);
+                best = split_replay_case(cand, m);
                 continue 'outer;
             }
         }
@@ -388,7 +438,7 @@ pub fn run_one<C: Case>(
     match r {
         Ok(()) => true,
         Err(m) => {
-            let (c, m) = minimise((case.clone(), m), check);
+            let (c, m) = minimise(split_replay_case(case.clone(), m), check);
             ctx.fail(Failure {
                 check: sub.to_string(),
                 case: serde_json::to_value(&c).unwrap_or(Value::Null),
@@ -695,6 +745,150 @@ pub fn replay_file<C: Case>(
         Err(e) => {
             eprintln!("INFRA: replay file does not decode for {} / {}: {}", ctx.id, sub, e);
             std::process::exit(2);
+        }
+    }
+}
+
+// ---------------------------------------------------------------------------------------------
+// process isolation: shards run in child processes so that aborts, stack overflows and refused
+// giant allocations are observed instead of killing the check
+
+/// Child side: run one shard, announcing each case before it is executed.
+pub fn worker_shard<C: Case>(
+    sub: &str,
+    seed: u64,
+    shard: u64,
+    cases: u32,
+    tape_len: usize,
+    decode: &(dyn Fn(&mut Tape) -> C + Sync),
+    check: &(dyn Fn(&C, &mut Obs) -> Result<(), String> + Sync),
+) -> i32 {
+    let mut st = Stats::default();
+    let f = run_shard_opt(sub, seed, shard, cases, tape_len, decode, check, &mut st, true);
+    println!("S {}", serde_json::to_string(&st).unwrap_or_default());
+    if let Some(f) = f {
+        println!("F {}", serde_json::to_string(&f).unwrap_or_default());
+    }
+    0
+}
+
+/// Child side: run one explicit case read from stdin; prints "OK" or "F <failure json>".
+pub fn worker_one<C: Case>(sub: &str, check: &(dyn Fn(&C, &mut Obs) -> Result<(), String> + Sync)) -> i32 {
+    let mut s = String::new();
+    if std::io::Read::read_to_string(&mut std::io::stdin(), &mut s).is_err() {
+        return 2;
+    }
+    let Ok(c) = serde_json::from_str::<C>(&s) else { return 2 };
+    let mut obs = Obs::default();
+    let r = guard(|| check(&c, &mut obs)).unwrap_or_else(|p| Err(format!("panic: {}", p)));
+    match r {
+        Ok(()) => println!("OK"),
+        Err(m) => {
+            let (c2, m2) = split_replay_case(c, m);
+            println!(
+                "F {}",
+                serde_json::to_string(&Failure { check: sub.to_string(), case: serde_json::to_value(&c2).unwrap_or(Value::Null), message: m2 }).unwrap_or_default()
+            );
+        }
+    }
+    0
+}
+
+pub struct ChildOutcome {
+    pub lines: Vec<String>,
+    pub status: std::process::ExitStatus,
+}
+
+pub fn run_child(args: &[String], stdin_data: Option<&str>, env: &[(&str, String)]) -> ChildOutcome {
+    use std::io::Write;
+    use std::process::{Command, Stdio};
+    let exe = std::env::current_exe().expect("current_exe");
+    let mut cmd = Command::new(&exe);
+    cmd.args(args).stdin(Stdio::piped()).stdout(Stdio::piped()).stderr(Stdio::null());
+    for (k, v) in env {
+        cmd.env(k, v);
+    }
+    let mut ch = match cmd.spawn() {
+        Ok(c) => c,
+        Err(e) => {
+            eprintln!("INFRA: cannot spawn worker: {}", e);
+            std::process::exit(2);
+        }
+    };
+    let mut stdin = ch.stdin.take().unwrap();
+    let data = stdin_data.map(|s| s.to_string());
+    let h = std::thread::spawn(move || {
+        if let Some(d) = data {
+            let _ = stdin.write_all(d.as_bytes());
+        }
+    });
+    let out = ch.wait_with_output();
+    let _ = h.join();
+    match out {
+        Ok(o) => ChildOutcome { lines: String::from_utf8_lossy(&o.stdout).lines().map(|s| s.to_string()).collect(), status: o.status },
+        Err(e) => {
+            eprintln!("INFRA: worker wait failed: {}", e);
+            std::process::exit(2);
+        }
+    }
+}
+
+/// Parent side. `locate` is called when a child died while running `case_json`; it must return the
+/// most specific failing case it can find (by running further children) or None when the death
+/// does not reproduce (then the run is inconclusive => infrastructure exit).
+pub fn run_isolated(
+    ctx: &mut Ctx,
+    sub: &str,
+    total_cases: u64,
+    locate: &dyn Fn(&str) -> Option<Failure>,
+) {
+    let threads = ctx.threads.max(1) as u64;
+    let per = ((total_cases + threads - 1) / threads).max(1);
+    let mut handles = vec![];
+    for shard in 0..threads {
+        let args: Vec<String> = vec![
+            "worker".into(), "shard".into(), ctx.id.to_string(), sub.to_string(),
+            ctx.seed.to_string(), shard.to_string(), per.to_string(), ctx.tier.name().to_string(),
+        ];
+        handles.push(std::thread::spawn(move || run_child(&args, None, &[])));
+    }
+    for h in handles {
+        let out = match h.join() {
+            Ok(o) => o,
+            Err(_) => {
+                eprintln!("INFRA: worker thread died");
+                std::process::exit(2);
+            }
+        };
+        let mut got_stats = false;
+        for l in &out.lines {
+            if let Some(js) = l.strip_prefix("S ") {
+                if let Ok(st) = serde_json::from_str::<Stats>(js) {
+                    ctx.stats.merge(st);
+                    got_stats = true;
+                }
+            } else if let Some(js) = l.strip_prefix("F ") {
+                if let Ok(f) = serde_json::from_str::<Failure>(js) {
+                    ctx.fail(f);
+                }
+            }
+        }
+        if !got_stats {
+            // the child died: the last announced case is the one in flight
+            let last = out.lines.iter().rev().find_map(|l| l.strip_prefix("C "));
+            match last {
+                Some(case_json) => match locate(case_json) {
+                    Some(f) => ctx.fail(f),
+                    None => {
+                        eprintln!("INFRA: a worker died ({:?}) but the death did not reproduce on its last case", out.status);
+                        std::process::exit(2);
+                    }
+                },
+                None => {
+                    eprintln!("INFRA: a worker died ({:?}) before announcing any case", out.status);
+                    std::process::exit(2);
+                }
+            }
         }
     }
 }
